@@ -195,6 +195,10 @@ class Interp:
                         for k2, v2 in list(vars(v).items()):
                             if not k2.startswith("__") and isinstance(v2, kinds):
                                 table[id(v2)] = f"{mname}:{v.__name__}.{k2}"
+                                if isinstance(v2, dict):
+                                    for k3, v3 in list(v2.items()):
+                                        if isinstance(v3, kinds):
+                                            table.setdefault(id(v3), f"{mname}:{v.__name__}.{k2}[{k3!r}]")
             self._module_state = table
             self._module_state_n = len(sys.modules)
         return self._module_state.get(id(obj))
@@ -963,7 +967,7 @@ class Interp:
             and self.skip_logging
         ):
             for a in node.args:
-                self.eval(a, frame)
+                self.eval(a.value if isinstance(a, ast.Starred) else a, frame)
             for k in node.keywords:
                 self.eval(k.value, frame)
             return None
